@@ -10,7 +10,7 @@ RULE = ("case = one script: body `new; [0-3 pending times-fakes, each satisfied 
         "process. Oracle: process not aborted; at most one panic raised; panic class as expected for k; refused call made no "
         "mprotect/flush/executable-mmap before refusing and left its target untouched; every pool target's bytes and behaviour original; no "
         "trampoline left (except after an injected mprotect failure: noted); a fresh thread creates, uses and drops an injector and a "
-        "preventer within 30 s. distinct = (position, kind, #pending, #satisfied)")
+        "preventer within 30 s; so does the very thread whose scope unwound, and (a third of the scripts) a thread that was already blocked on the guard when the panic started. distinct = (position, kind, #pending, #satisfied)")
 
 
 def run(tier, seed):
